@@ -7,7 +7,7 @@ Model/ConvertE.lean refines the total models of Model/Convert.lean with explicit
 (every dict subscript of the real function can raise `KeyError`; the list with line numbers is in
 its header).  Here: on a definition accepted by `validate` the failure-tracking version returns
 `.ok` of exactly the value of the total model — the model that the C07 language theorems
-(`C07_from_nfa_lang`, `C07_from_nfa_min_lang`, `C07_elim_lang`, `C07_from_dfa_lang`) are about.
+(`C07_from_nfa_lang`, `C07_from_nfa_min`, `C07_elim_lang`, `C07_from_dfa_lang`) are about.
 
 What validation ACCEPTS and the theorems therefore cover: rows keyed by non-states (their target
 sets are validated like every other row, so `lambda_closures[end_state]` hits even when such a row
@@ -19,12 +19,16 @@ and the subscript `transitions[cur_state_name]` is shown to hit at every step; t
 proved to produce the very table, state list, final list and `allow_partial` flag of the total
 model `DFA.expand`, for ANY successor function satisfying `ExpandHyp` (`expandE_eq`), so the
 result also covers the other callers of `_expand_dfa` once their `expand_state_fn` is shown not
-to fail.  Covered variants of `from_nfa`: `retain_names=True` with `minify=False` and
-`minify=True`.  NOT covered: `retain_names=False` (the same loop run on the names handed out by
-`get_renaming_function`; no additional subscript, but the simulation is not proved here).
+to fail.  The `retain_names=False` loop (Model/ConvertERenum.lean: tables keyed by the integers
+handed out by `get_renaming_function(count(0))`, `visited_set` / `queue` holding subset states) is
+proved to simulate the `retain_names=True` loop step by step (Proofs/ConvertERenum.lean), so it
+fails nowhere either and builds `renumber` of the same DFA.  All four `retain_names × minify`
+variants of `from_nfa` are covered (for `retain_names=False, minify=True` up to the final renaming
+of the blocks inside `_minify`, a `setdefault`, which is the total model's).
 No subscript was found that can fail on an accepted definition.
 -/
 import AutomataVerif.Proofs.ConvertE
+import AutomataVerif.Proofs.ConvertERenum
 import AutomataVerif.Proofs.MinGlueSubset
 import AutomataVerif.Proofs.Complete
 import AutomataVerif.Props.C19g
@@ -71,13 +75,44 @@ theorem C19_from_nfa_no_keyerror (n : AV.NFA σ α) (hv : n.validate = .ok ()) :
 
 /-- **`DFA.from_nfa(n, retain_names=True, minify=True)` raises no `KeyError` / `StopIteration`**
 on an accepted definition (expansion, then every subscript of `_minify`, for every pop order
-`pick`) and returns the value of the total model (`C07_from_nfa_min_lang`). -/
+`pick`) and returns the value of the total model (`C07_from_nfa_min`). -/
 theorem C19_from_nfa_min_no_keyerror (n : AV.NFA σ α) (hv : n.validate = .ok ()) (ps : n.PyShape)
     (pick : List Nat → Nat) : n.toDFAMinE pick = .ok (n.toDFAMin pick) := by
   have wf := (NFA.validate_eq_ok n).mp hv
   unfold NFA.toDFAMinE
   rw [bindE_ok (C19_from_nfa_no_keyerror n hv)]
   exact minifyCoreE_eq (toDFA_minSource wf ps) pick
+
+/-- **The loop of `_expand_dfa(retain_names=False)` raises no `KeyError`** under the same
+hypotheses (tables keyed by the integers of `get_renaming_function(count(0))`), and builds exactly
+`renumber` of the total model. -/
+theorem C19_expand_dfa_renum_no_keyerror {S : Type} [DecidableEq S]
+    {succE : S → Res (List (α × S))} {succ : S → List (α × S)} {univ : List S} {fuel : Nat}
+    {init : S} (isFin : S → Bool) (syms : List α) (h : ExpandHyp succ univ fuel init)
+    (hsE : ∀ u ∈ univ, succE u = .ok (succ u)) :
+    expandRenumE succE isFin syms fuel init = .ok (expand succ isFin syms fuel init).renumber :=
+  expandRenumE_eq isFin syms h hsE
+
+/-- **`DFA.from_nfa(n, retain_names=False, minify=False)` raises no `KeyError`** on an accepted
+definition and returns the value of the total model (`C07_from_nfa_renumbered`). -/
+theorem C19_from_nfa_renum_no_keyerror (n : AV.NFA σ α) (hv : n.validate = .ok ()) :
+    n.toDFARenumE = .ok n.toDFA.renumber := by
+  have wf := (NFA.validate_eq_ok n).mp hv
+  unfold NFA.toDFARenumE
+  rw [bindE_ok (NFA.closureE_eq wf.initOk)]
+  exact expandRenumE_eq _ _ (subset_expandHyp n (n.closure n.init))
+    (fun u _ => NFA.subsetSuccE_eq wf u)
+
+/-- **`DFA.from_nfa(n)` with the DEFAULT options (`retain_names=False, minify=True`) raises no
+`KeyError` / `StopIteration`** on an accepted definition, for every pop order, and returns the
+value of the total model `toDFAMinRenum` (`C07_from_nfa_min_renumbered`). -/
+theorem C19_from_nfa_default_no_keyerror (n : AV.NFA σ α) (hv : n.validate = .ok ())
+    (ps : n.PyShape) (pick : List Nat → Nat) :
+    n.toDFAMinRenumE pick = .ok (n.toDFAMinRenum pick) := by
+  have wf := (NFA.validate_eq_ok n).mp hv
+  unfold NFA.toDFAMinRenumE
+  rw [bindE_ok (C19_from_nfa_renum_no_keyerror n hv)]
+  exact minifyCoreE_eq (toDFA_renumber_minSource wf ps) pick
 
 /-! ## `NFA.eliminate_lambda`, `NFA.from_dfa` -/
 
@@ -161,10 +196,13 @@ theorem C19_conversions_no_crash (n : AV.NFA σ α) (hv : n.validate = .ok ()) (
     (pick : List Nat → Nat) :
     (∀ e : PyErr, n.toDFAE ≠ .error (.py e)) ∧
     (∀ e : PyErr, n.toDFAMinE pick ≠ .error (.py e)) ∧
+    (∀ e : PyErr, n.toDFARenumE ≠ .error (.py e)) ∧
+    (∀ e : PyErr, n.toDFAMinRenumE pick ≠ .error (.py e)) ∧
     (∀ e : PyErr, n.eliminateLambdaE ≠ .error (.py e)) := by
   rw [C19_from_nfa_no_keyerror n hv, C19_from_nfa_min_no_keyerror n hv ps pick,
+    C19_from_nfa_renum_no_keyerror n hv, C19_from_nfa_default_no_keyerror n hv ps pick,
     C19_eliminate_lambda_no_keyerror n hv]
-  refine ⟨?_, ?_, ?_⟩ <;> intro e h <;> cases h
+  refine ⟨?_, ?_, ?_, ?_, ?_⟩ <;> intro e h <;> cases h
 
 /-! ## non-vacuity, and what the failure-tracking models do outside the hypotheses -/
 
@@ -198,6 +236,9 @@ example : (match exCyc.toDFAE with | .ok m => (m.trans, m.finals, m.allowPartial
 example : (match exCyc.toDFAMinE with | .ok m => m.states.length | .error _ => 99) = 3 := by decide
 example : (match exCyc.eliminateLambdaE with | .ok m => (m.states, m.finals) | .error _ => ([], [])) =
     (exCyc.eliminateLambda.states, exCyc.eliminateLambda.finals) := by decide
+example : (match exCyc.toDFARenumE with | .ok m => (m.states, m.trans, m.finals) | .error _ => ([], [], [])) =
+    ([0, 1, 2], [(0, [(0, 1), (1, 2)]), (1, [(1, 0)]), (2, [(0, 1), (1, 2)])], [2]) := by decide
+example : (match exCyc.toDFAMinRenumE with | .ok m => m.states.length | .error _ => 99) = 3 := by decide
 /-- Reading the row keyed by the non-state `7` does not fail either. -/
 example : (match exCyc.subsetSuccE [7, 3, 9] with | .ok r => r | .error _ => []) = [(0, [0, 1])] := by
   decide
